@@ -886,7 +886,7 @@ def run(ctx):
     # ---- history independence of long-lived objects
     run_histories(ctx, 12 if q else 120)
     # ---- the same inside forward models: planet and grid are the model's, changed through its parameters
-    run_owners(ctx, 12 if q else 150)
+    run_owners(ctx, 12 if q else 100)
 
 
 def replay(ctx, violations):
